@@ -143,6 +143,9 @@ def frame_func(text):
 def classify_output(rc, out, err):
     """-> (status, key, msg); status 0 ok, 1 violation, 2 internal"""
     text = out + "\n" + err
+    m = re.search(r"([\w./-]+):(\d+): (\S+): Assertion `(.*)' failed", text)
+    if m:
+        return 1, "ASSERT/%s/%s" % (os.path.basename(m.group(1)), m.group(3)), m.group(0)
     m = re.search(r"ERROR: AddressSanitizer: ([a-zA-Z0-9_-]+)", text)
     if m:
         kind = m.group(1)
